@@ -734,7 +734,14 @@ class EventBus:
                     self._on_idle.clear()  # Start in a busy state unless we confirm queue is empty by running step() at least once
 
                 # Create and start the run loop task
-                self._runloop_task = loop.create_task(self._run_loop(), name=f'{self}._run_loop')
+                # It must not inherit "I hold the global lock / I am inside a handler" from the code that happens to start it
+                # (e.g. a handler of another bus doing the first dispatch to this bus), or it would bypass the lock for life
+                runloop_context = contextvars.copy_context()
+                runloop_context.run(holds_global_lock.set, False)
+                runloop_context.run(inside_handler_context.set, False)
+                runloop_context.run(_current_event_context.set, None)
+                runloop_context.run(_current_handler_id_context.set, None)
+                self._runloop_task = loop.create_task(self._run_loop(), name=f'{self}._run_loop', context=runloop_context)
                 self._is_running = True
             except RuntimeError:
                 # No event loop - will start when one becomes available
